@@ -121,7 +121,9 @@ class DISPATCH:
     extends = 'functions.<OPC>'
 
     def requires(tape, stack, cache):
-        return flags_complete(tape) + defs_ok(tape)
+        return flags_complete(tape) + defs_ok(tape) + [
+            ('plugins.list', is_list_or_absent(tape.plugins, 'signature_extensions')
+             and is_list_or_absent(tape.plugins, 'check_template'))]
 
 
 @contract('functions.<OPF>')
